@@ -2098,7 +2098,8 @@ class PrepareAst:
             def default_converter(x):
                 stmt = self.apply(x)
                 bound_stmt.append(stmt)
-                return stmt
+                # the default value is the result of the expression, not the expression statement
+                return stmt.result()
 
             self.set_local(
                 inp.name,
@@ -2126,7 +2127,8 @@ class PrepareAst:
             def default_converter(x):
                 stmt = self.apply(x)
                 bound_stmt.append(stmt)
-                return stmt
+                # the default value is the result of the expression, not the expression statement
+                return stmt.result()
 
             return out.Value(
                 FunctionDefinition.from_ast_fn(
